@@ -17,6 +17,9 @@ func main() {
 	if len(os.Args) < 2 {
 		usage()
 	}
+	if d := os.Getenv("VERIF_C17_FIRST_DIV"); d != "" && os.Args[1] == "C17-child" {
+		os.Exit(checks.C17FirstDivChild(d))
+	}
 	id := os.Args[1]
 	if id == "replay" {
 		if len(os.Args) < 3 {
